@@ -212,7 +212,9 @@ pub fn run(ctx: &mut Ctx) {
         let (r, s) = r2::sign(&d, id_str.as_bytes(), &msg, &k)?;
         let mut sig = r.to_vec();
         sig.extend_from_slice(&s);
-        Some(Sample { d: Some(d), lpk: lib_pk(&pk)?, pk, id, id_str, msg, sig, origin: "reference-made" })
+        // verifier-side key object by provenance: decoded bytes / gen_keypair / Jacobian representation
+        let lpk = if i % 3 == 0 { lib_pk(&pk)? } else { lib_keys(&d, i as u64, p)?.0 };
+        Some(Sample { d: Some(d), lpk, pk, id, id_str, msg, sig, origin: "reference-made" })
     };
     // sample 0 on every shard is the "other key" donor
     let donor = mk(&mut ctx.prng("donor"), 1000).expect("donor sample");
